@@ -123,6 +123,17 @@ func (f *flusher) markMetadataDirty(key, mdSuffix string) {
 		return // Blob is not yet complete, we can't start flushing.
 	}
 
+	// The caller banned eviction before mutating the metadata, but a flush that was finishing concurrently may have
+	// lifted that ban since (it does so under f.mu, together with untracking the blob). Tracking a blob and banning its
+	// eviction must go together, otherwise the blob can be evicted from mem before this metadata reaches the disk.
+	if err := f.mem.BanEviction(key); err != nil {
+		f.log.With(
+			"key", key,
+			"error", fmt.Errorf("mem store ban eviction: %w", err),
+		).Error("Could not ban eviction of a blob with dirty metadata")
+		return
+	}
+
 	f.blobs[key] = &blob{
 		key:       key,
 		dataDirty: false,
